@@ -124,3 +124,42 @@ class Interpolate(Contract):
                                                                                               G[i, q] * sc == T[i, k] + (rc(q) - A[k]) * (T[i, k + 1] - T[i, k]) / (A[k + 1] - A[k])))(G, sc, T), 'linear')
             out['largest_beyond_table(%s)' % nm] = c.forall([T.shape[0], Rq.n], (lambda G, sc, T: lambda i, q: implies(Rq[q] * f >= A[n - 1], G[i, q] * sc == T[i, n - 1]))(G, sc, T), 'largest beyond')
         return out
+
+
+@contract
+class SortToMatch(Contract):
+    """ConvolvedFluxes.sort_to_match(requested): on normal return row r is labelled requested[r]
+    (stripped) and holds the name, the fluxes and the errors of ONE row of the input -- the same row
+    for all three (row integrity); apertures and central wavelength untouched.  Anything else is an
+    exception.  (That a permutation of unique names never raises is decided by the bounded run.)"""
+    name = CF + '.sort_to_match'
+    properties = ('C07', 'C16')
+    variants = ('multi', 'single')
+    modifies = ('self._model_names', 'self._flux', 'self._error')
+
+    def setup(self, c, variant):
+        cf = make_cf(c, U['au'], n_ap=1 if variant == 'single' else None)
+        M = c.A(c.attr(cf, '_model_names')).n
+        return dict(self=cf, requested_model_names=c.array('requested', (M,), 'int'))
+
+    def requires(self, c, a):
+        names = c.A(c.attr(a.self, '_model_names'))
+        F, E = c.A(c.attr(a.self, '_flux')), c.A(c.attr(a.self, '_error'))
+        return {'lengths': band(compare('==', c.A(a.requested_model_names).n, names.n), band(compare('==', F.shape[0], names.n), compare('==', E.shape[0], names.n)))}
+
+    def raises(self, c, a):
+        return {'Exception': ('may', True)}        # allowed whenever the code's own check fails; never silently wrong
+
+    def ensures(self, c, a, result, old):
+        from sedvc.extmodels import strip_code
+        oc = old
+        n0, F0, E0 = oc.A(oc.attr(a.self, '_model_names')), oc.A(oc.attr(a.self, '_flux')), oc.A(oc.attr(a.self, '_error'))
+        n1, F1, E1 = c.A(c.attr(a.self, '_model_names')), c.A(c.attr(a.self, '_flux')), c.A(c.attr(a.self, '_error'))
+        req = c.A(a.requested_model_names)
+        M, A = n0.n, F0.shape[1]
+        O = c.A(c.witness('order', (M,), 'int'))
+        return {'shapes': [compare('==', n1.n, M), compare('==', F1.shape[0], M), compare('==', F1.shape[1], A), compare('==', E1.shape[0], M), compare('==', E1.shape[1], A)],
+                'labelled_as_requested': c.forall(M, lambda r: n1[r] == strip_code(req[r]), 'label'),
+                'source_row_exists': c.forall(M, lambda r: band(O[r] >= 0, O[r] < M), 'order in range'),
+                'row_integrity': c.forall([M, A], lambda r, i: band(n1[r] == n0[O[r]], band(F1[r, i] == F0[O[r], i], E1[r, i] == E0[O[r], i])), 'row'),
+                'units_kept': c.attr(a.self, '_flux').unit is oc.attr(a.self, '_flux').unit or c.attr(a.self, '_flux').unit.name == oc.attr(a.self, '_flux').unit.name}
